@@ -376,7 +376,7 @@ def families(opts):
                 det = dict(det)
                 det['shape'] = M.show(e)
                 det['wrap'] = r.wrap
-                full = sig if sig.startswith('C15:') else '%s:%s:%s' % (r.wrap, sig, shape_sig(e))
+                full = sig if sig.startswith('C15:') else '%s:%s' % (r.wrap, sig) if sig.startswith('history:') else '%s:%s:%s' % (r.wrap, sig, shape_sig(e))
                 ctx.violation(full, det, index=k, family='shape')
 
     def run_shape(k, ctx):
@@ -396,7 +396,7 @@ def families(opts):
             det = dict(det)
             det['shape'] = M.show(e)
             det['wrap'] = r.wrap
-            ctx.violation(sig if sig.startswith('C15:') else '%s:%s:%s' % (r.wrap, sig, shape_sig(e)), det)
+            ctx.violation(sig if sig.startswith('C15:') else '%s:%s' % (r.wrap, sig) if sig.startswith('history:') else '%s:%s:%s' % (r.wrap, sig, shape_sig(e)), det)
 
     def show_shape(k):
         doc, exp = build_model([(k, S[k])], r.wrap)
